@@ -412,6 +412,45 @@ func genWire(c *Ctx) (string, error) {
 		sort.Strings(arm)
 		fmt.Fprintf(&b, "Definition gen_%s_int_arm : list string := %s.\n\n", f.tag, coqStrs(arm))
 	}
+	// the inner type switch of the `case Message:` arm: which Go types get the doubled stat size
+	for _, f := range []fnspec{{"encoder", "encode", "encode", "enc"}, {"decoder", "decode", "decode", "dec"}, {"", "size9p", "size9p", "size"}} {
+		fd := c.FuncDecl(f.recv, f.name)
+		cc, err := caseBody(c, fd, "Message")
+		if err != nil {
+			return "", err
+		}
+		var inner *ast.TypeSwitchStmt
+		for _, st := range cc.Body {
+			ast.Inspect(st, func(n ast.Node) bool {
+				if inner != nil {
+					return false
+				}
+				if t, ok := n.(*ast.TypeSwitchStmt); ok {
+					inner = t
+					return false
+				}
+				return true
+			})
+		}
+		if inner == nil {
+			return "", fmt.Errorf("%s: the Message arm has no inner type switch", f.name)
+		}
+		var arms []string
+		for _, st := range inner.Body.List {
+			ic := st.(*ast.CaseClause)
+			var names []string
+			for _, e := range ic.List {
+				if tv, ok := c.Info.Types[e]; ok {
+					names = append(names, typeName(tv.Type))
+				}
+			}
+			sort.Strings(names)
+			arms = append(arms, coqStrs(names))
+		}
+		fmt.Fprintf(&b, "Definition gen_%s_stat_arms : list (list string) := [%s].\n", f.tag, strings.Join(arms, "; "))
+	}
+	b.WriteString("\n")
+
 	var its []string
 	for t := range intTypes {
 		its = append(its, t)
